@@ -28,6 +28,11 @@ Viol(r) ==
   \cup (IF r.confine /\ ~r.future_first THEN {"FutureFirst"} ELSE {})
   \cup (IF r.confine /\ ~ConfinedOnly(srcI, resI) THEN {"ConfinedOnlyNewAnnotationOnly"} ELSE {})
   \cup (IF r.confine /\ ~ConfinedAll(srcI, resI) THEN {"ConfinedAllNew"} ELSE {})
+  \* every import of the stub is SOMEWHERE in the result (as written, or as `import m` next to `m.X` annotations): an import
+  \* that was taken out of the run-time part and never put under TYPE_CHECKING is "confined" to nowhere
+  \cup (IF r.confine /\ \E s \in ToS(r.stub_imports) : s.module \notin {"typing", "__future__"}
+                        /\ ~(\E j \in resI : j.module = s.module /\ (j.name = s.name \/ j.kind = "import"))
+        THEN {"ConfinedAllNew"} ELSE {})
   \cup (IF ~RuntimeNeeds(resI) THEN {"RuntimeNeedsAtRuntime"} ELSE {})
   \cup (IF ~r.confine /\ \E j \in resI : j.block = "tc" /\ ~(\E s \in srcI : Key(s) = Key(j)) THEN {"ConfinedWithoutRequest"} ELSE {})
 
